@@ -114,10 +114,14 @@ namespace
             else
             {
                 size_t end;
-                for (end = newoff; format[end] >= '0' && format[end] <= '9'; ++end);
-                auto num = std::stoi(format.substr(newoff, end - newoff));
+                // The number of the placeholder; more digits than any index has just mean "out of range"
+                size_t num = 0;
+                for (end = newoff; format[end] >= '0' && format[end] <= '9'; ++end)
+                {
+                    if (num <= r->size()) { num = num * 10 + static_cast<size_t>(format[end] - '0'); }
+                }
                 newoff = end;
-                if (num >= static_cast<int>(r->size()))
+                if (num >= r->size())
                 {
                     runtime.__logmsg(err::IndexOutOfRangeWeak(runtime.context_active().current_frame().diag_info_from_position(), r->size(), num));
                 }
